@@ -81,7 +81,7 @@ def _long_cycle_mask(rng, k):
     """An induced cycle of 3^(k-1) out-degree-1 vertices (the k-mers along a ternary de Bruijn sequence of order k-1:
     every (k-1)-mer occurs once, so every vertex has exactly one successor inside) next to a small branching core."""
     n = 4 ** k
-    letters = rng.sample([0, 1, 2, 3], 3)
+    letters = rng.sample([0, 1, 2, 3], 3) if k < 8 else [0, 1, 2]      # at order 8 the core lives on T: indices beyond 2^15
     seq = _debruijn(letters, k - 1)
     m = len(seq)
     mask = [0] * n
@@ -127,9 +127,25 @@ def generate(ctx):
         if ctx.mine(j):
             yield "generate", dict(k=k, mask=G.mask_to_hex(_long_cycle_mask(rng, k)), t=1, dtype="bool", fam="long-cycle")
         j += 1
+    for k in (2, 3, 4, 5, 6, 7):
+        for d in (2, 3):
+            # all k-mers over a d-letter alphabet (+ a few strays that must be trimmed): exactly d^k vertices of out-degree d
+            if ctx.mine(j):
+                letters = rng.sample(range(4), d)
+                idx = np.arange(4 ** k)
+                digits = np.stack([(idx // 4 ** (k - 1 - i)) % 4 for i in range(k)], axis=1)
+                member = np.isin(digits, letters).all(axis=1)
+                for _x in range(rng.choice([0, 0, 2, 5])):
+                    member[rng.randrange(4 ** k)] = True
+                for t in range(1, d + 2):
+                    yield "generate", dict(k=k, mask=G.mask_to_hex(member), t=t, dtype=rng.choice(["bool", "int64"]), fam="sub-alphabet")
+            j += 1
     for k in (7, 8, 9, 10):
         if ctx.mine(j) and (k <= 9 or not ctx.quick() or ctx.shard == 0):
             a, c = rng.sample([0, 1, 2, 3], 2)
+            if k == 8:
+                a = 3                      # vertex indices beyond 2^15 (and 2^16 - 1 itself)
+                c = rng.choice([0, 1, 2])
             yield "generate", dict(k=k, mask=G.mask_to_hex(_at_most_one_mask(k, a, c)), t=rng.choice([1, 1, 2]), dtype=rng.choice(["bool", "int64"]), fam="tiny-at-large-order")
         j += 1
     if ctx.shard == 1 or (not ctx.quick() and ctx.shard in (2, 3)):
@@ -281,7 +297,7 @@ def check_generate(ctx, case):
     if ch:
         ctx.fail("argument-modified", "changed: %s" % ch)
     ctx.cls(tag)
-    if case["fam"] in ("long-cycle", "tiny-at-large-order", "deep-sweeps", "near-full-large-order"):
+    if case["fam"] in ("long-cycle", "tiny-at-large-order", "deep-sweeps", "near-full-large-order", "sub-alphabet"):
         ctx.cls("family|" + case["fam"])
         ctx.obs("largest order generated", k)
     ctx.cls("rounds|%d" % min(rounds, 6))
@@ -381,7 +397,7 @@ def floors(agg, tier):
     for name, need in (("t1|information-free structure removed", 500), ("latter-map-route|checked", 1000),
                        ("monotonicity|checked", 500), ("rounds|3", 50),
                        ("latter-map-route|one map object trimmed at 4, 3, 2 in turn", 500), ("family|long-cycle", 4),
-                       ("family|tiny-at-large-order", 3), ("family|deep-sweeps", 10), ("family|near-full-large-order", 1),
+                       ("family|tiny-at-large-order", 3), ("family|deep-sweeps", 10), ("family|near-full-large-order", 1), ("family|sub-alphabet", 30),
                        ("latter-map-route|map written in arbitrary order", 500), ("repeated after the returned graph was scrambled", 300),
                        ("preceded by edited predecessor/successor lists", 300)):
         if c.get(name, 0) < need:
